@@ -214,30 +214,78 @@ func VerifCancelDeletesPartialFile() {
 	verif.Assert("cancel-deletes-partial-file", e.arch.deleted >= 1)
 }
 
-// VerifIdleTickFindingCompletionRace: the last missing piece arrives on the
-// connection's goroutine WHILE the preemption tick drops the idle in-progress
-// torrent (interleavings at the storage calls and sync operations, one
-// preemption). Whatever the order, a torrent that is complete must not be
-// deleted from the archive. Fires on the current tree (FINDINGS.md, F2): the
-// window between removeTorrent's completeness check and DeleteTorrent.
-func VerifIdleTickFindingCompletionRace() {
+// ---- the last piece lands on the connection's goroutine while the tick runs ----
+//
+// The event loop observes the torrent's completeness through
+// storage.Torrent.Complete(); the stub counts those observations and records
+// how many the loop had made (all of them "incomplete") when the last missing
+// piece was written by the other goroutine. On the current code the tick that
+// drops an idle in-progress torrent observes completeness four times: for the
+// idle-seeder test, for the idle-leecher test, for the log line, and finally
+// removeTorrent's own check, which decides about teardown and deletion.
+const verif18ObsBeforeRemovalCheck = 3 // observations that precede removeTorrent's own check
+
+// verif18Race runs the tick against a concurrent delivery of the last piece
+// and returns the number of "incomplete" observations the loop had made when
+// the torrent completed, and the answer the waiting download got (ok=false:
+// none yet).
+func verif18Race() (e *verif18Sched, obs int, answer error, answered bool) {
 	verif.Option("max_preempt", 1)
-	e := verif18BuildSched(2, false)
+	e = verif18BuildSched(2, false)
 	// the race, not the limits, is the subject: fix them
 	verif.Assume(e.leecherTTI == int64(10*time.Second) && e.seederTTI == int64(10*time.Second))
 	ctrl, err := e.st.addTorrent("ns", e.arch.t, true)
 	verif.Assert("add-torrent", err == nil)
+	errc := make(chan error, 1)
+	ctrl.errors = append(ctrl.errors, errc) // a Download waits for this torrent
 	p, _ := dispatch.Verif18AddPeer(ctrl.dispatcher, 1, 2)
 	dispatch.Verif18Receive(ctrl.dispatcher, p, 0)
-	e.clk.Add(11 * time.Second)
+	e.clk.Add(11 * time.Second) // idle for longer than the leecher limit
+	e.arch.t.CompleteCalls = 0
+	e.arch.t.ObsAtCompletion = -1
 	done := make(chan struct{})
 	go func() {
-		dispatch.Verif18Receive(ctrl.dispatcher, p, 1)
+		dispatch.Verif18Receive(ctrl.dispatcher, p, 1) // the last missing piece
 		close(done)
 	}()
 	preemptionTickEvent{}.apply(e.st)
 	<-done
-	verif.Cover("completed-before-drop-decision", e.present())
-	verif.Cover("dropped-before-completion", !e.present() && e.arch.deleted == 1)
-	verif.Assert("completed-blob-never-deleted", e.arch.deletedComplete == 0)
+	verif.Assert("last-piece-written", e.arch.t.ObsAtCompletion >= 0)
+	select {
+	case answer = <-errc:
+		answered = true
+	default:
+	}
+	return e, e.arch.t.ObsAtCompletion, answer, answered
+}
+
+// VerifIdleTickCompletionBeforeRemoval: the last piece lands before the tick
+// looks at the torrent, between its looks, or at the latest right before
+// removeTorrent's own completeness check. Then the completed blob is not
+// deleted, and the waiting download is either still waiting (torrent kept:
+// the completion notice will answer it) or answered with success; it is never
+// told "timed out" about a blob that stays in the cache.
+func VerifIdleTickCompletionBeforeRemoval() {
+	e, obs, answer, answered := verif18Race()
+	verif.Assume(obs <= verif18ObsBeforeRemovalCheck)
+	verif.Cover("completion-before-the-tick-looks", obs == 0)
+	verif.Cover("completion-after-idle-decision-before-removal-check", obs >= 2 && !e.present())
+	verif.Assert("completed-blob-survives-idle-drop", e.arch.deletedComplete == 0 && e.arch.deleted == 0)
+	if e.present() {
+		verif.Reach("completed-torrent-kept")
+		verif.Assert("kept-torrent-waiter-not-failed", !answered)
+	} else {
+		verif.Reach("completed-torrent-forgotten")
+		verif.Assert("forgotten-completed-torrent-answers-success", answered && answer == nil)
+	}
+}
+
+// VerifIdleTickFindingCompletionRace: the last piece lands after
+// removeTorrent's own completeness check (teardown already decided). Known open
+// finding (FINDINGS.md F2): the just completed blob is deleted.
+func VerifIdleTickFindingCompletionRace() {
+	e, obs, _, _ := verif18Race()
+	verif.Assume(obs > verif18ObsBeforeRemovalCheck)
+	verif.Cover("dropped-before-completion", !e.present() && e.arch.deleted == 1 && e.arch.deletedComplete == 0)
+	verif.Assert("blob-survives-completion-inside-removeTorrent-window", e.arch.deletedComplete == 0)
 }
